@@ -229,8 +229,32 @@ func init() {
 						mux.Handle("#", body)
 					}
 				}
+				// C14: dispatch is decided by the topic the message HAD when Serve was called, whatever a handler does to its copy:
+				// a handler registered (last) for the rewritten topic "X" must not run, one registered for the original topic must
+				exactCalled := 0
+				origTopic := msg.Topic
+				plain := origTopic != "" && origTopic != "X" && !strings.ContainsAny(origTopic, "+#") && len(origTopic) < 200
+				mux.Handle("X", mqtt.HandlerFunc(func(m *mqtt.Message) {
+					mu.Lock()
+					r.Props = append(r.Props, viol("C14", "mux-dispatch-after-rewrite", "the handler registered for \"X\" ran for a message published to %q after an earlier handler rewrote its copy's topic (scripts %v)", origTopic, scripts))
+					mu.Unlock()
+				}))
+				if plain {
+					if err := mux.Handle(origTopic, mqtt.HandlerFunc(func(m *mqtt.Message) {
+						mu.Lock()
+						exactCalled++
+						mu.Unlock()
+					})); err != nil {
+						plain = false
+					}
+				}
 				mux.Serve(msg)
 				wg.Wait()
+				mu.Lock()
+				if plain && exactCalled != 1 {
+					r.Props = append(r.Props, viol("C14", "mux-matching-handler-skipped", "the handler registered for the exact topic %q ran %d times for one message (scripts %v)", origTopic, exactCalled, scripts))
+				}
+				mu.Unlock()
 				views = append(views, roundViews...)
 			}
 			r.Out = strings.Join(views, " ") + " | caller=" + viewOf(msg)
